@@ -511,7 +511,7 @@ impl Prop for Precedence {
         "one case = a well-typed expression tree over `and or == != .. < <= > >= + - * / % ^`, unary `-` and `not`, leaves = int/bool/string variables, literals and negative literals, with small operand values; printed with minimal parentheses per the book's table (left-associative) and fully parenthesised; both must print what the reference evaluator computes for the tree (value, or overflow / division by zero); fixed layer = every tree with exactly two operators x 3 leaf forms x 2 environments; non-trivial = >= 2 operators of different precedence and >= 1 parenthesis pair dropped by the minimal print; distinct by (tree, environment)"
     }
     fn n_cases(&self, tier: Tier) -> u32 {
-        tier.pick(300, 3000)
+        tier.pick(600, 6000)
     }
     fn exhaustive(&self, _tier: Tier) -> bool {
         false
